@@ -372,6 +372,14 @@ func init() {
 			n++
 			r.pos++
 		}
+		if r.pos >= len(r.payload) && !r.tailErr && x.params["shortReads"] == 1 {
+			// io.Reader contract: the final bytes may come together with io.EOF or io.EOF may come from the next call
+			// (the inflater does the former unless the stream ends exactly at a 32 KiB window boundary)
+			if x.c.Choose(2, "eof-with-data") == 0 {
+				return Tuple{x.intConst(int64(n)), x.errEOF()}
+			}
+			x.c.notes = append(x.c.notes, "eof-split: the last bytes were delivered without io.EOF (allowed by the io.Reader contract; real streams do so when they end exactly at a 32 KiB window boundary)")
+		}
 		return Tuple{x.intConst(int64(n)), nilErr}
 	}
 	intrinsics["zlib.reader.Close"] = func(x *Exec, a []Value) Value { return nilErr }
